@@ -1,6 +1,6 @@
 (* C16/Props.v : the property theorems for time evolution.  Model: C16/Model.v. *)
 From Coq Require Import ZArith List Bool Arith Permutation Floats Ring.
-From QV Require Import Base.Mat Base.Zi C15.MatDefs C15.Model C15.MatAlg C16.Model C16.Proofs C16.ProofsRK C16.ProofsRKw.
+From QV Require Import Base.Mat Base.Zi C15.MatDefs C15.Model C15.MatAlg C16.Model C16.Proofs C16.ProofsRK C16.ProofsRKw C16.ProofsMerge.
 Import ListNotations.
 
 (* ---- TermGroup.from_terms: every term lands in exactly one group; every group is a parent
@@ -15,17 +15,27 @@ Example grouping_nonvacuous :
   map (map fst) (from_terms ts) = [[[1; 0]; [0]; [1]]; [[2]]].
 Proof. vm_compute. reflexivity. Qed.
 
-(* ---- HamiltonianTerm.merge: proved part = target bookkeeping and refusal; the matrix identity
-        merge s t = merge_spec s t (child matrix embedded at its positions inside the parent, i.e.
-        the reshape/transpose index theorem) is NOT proved; it is checked per case by the
-        correspondence run (merged matrix embedded on n qubits = sum of embedded members). ---- *)
-Theorem merge_ok_partial : forall s t,
-  (subset (fst t) (fst s) = true -> exists m, merge s t = Some m /\ fst m = fst s) /\
-  (subset (fst t) (fst s) = false -> merge s t = None).
+(* ---- HamiltonianTerm.merge (kron with the identity, reshape, transpose with the `order` list,
+        reshape back, add): the child matrix ends up embedded at the positions its targets have inside
+        the parent's target list -- the reshape/transpose index theorem, for every number of targets,
+        every (non-ascending) order and every matrix; non-subset children are refused ---- *)
+Theorem merge_ok : forall s t,
+  NoDup (fst s) -> NoDup (fst t) -> subset (fst t) (fst s) = true ->
+  wfm (2 ^ tlen t) (2 ^ tlen t) (snd t) -> merge s t = Some (merge_spec s t).
+Proof. exact merge_is_spec. Qed.
+Print Assumptions merge_ok.
+
+Theorem merge_refuses : forall s t, subset (fst t) (fst s) = false -> merge s t = None.
+Proof. intros s t H. unfold merge. now rewrite H. Qed.
+Print Assumptions merge_refuses.
+
+Example merge_ok_nonvacuous :   (* parent on qubits (2,0), child on qubit 0 = second tensor factor *)
+  let s : hterm := ([2; 0], kron ZK (pmat PX) (pmat PX)) in let t : hterm := ([0], pmat PZ) in
+  NoDup (fst s) /\ NoDup (fst t) /\ subset (fst t) (fst s) = true /\
+  merge s t = Some ([2; 0], madd ZK (kron ZK (pmat PX) (pmat PX)) (kron ZK (pmat PI) (pmat PZ))).
 Proof.
-  intros s t. unfold merge. split; intros H; rewrite H; [eexists; split; reflexivity|reflexivity].
+  repeat split; try (vm_compute; reflexivity); repeat constructor; cbn; intuition discriminate.
 Qed.
-Print Assumptions merge_ok_partial.
 
 (* ---- SymbolicHamiltonian.circuit: groups forward, then backward (each at dt/2) ---- *)
 Theorem trotter_structure : forall ts l, circuit_terms ts = Some l ->
@@ -58,30 +68,21 @@ Example trotter_symmetric_nonvacuous :   (* the additive group of integers: U_a(
   circ Z Z Z Z.add 0%Z U (trotter_seq [2; 3; 5]%Z) 7%Z = 140%Z.
 Proof. split; [intros; cbn; ring|reflexivity]. Qed.
 
-(* ---- nsteps = int((T - t0)/dt) in binary64 ----
-   full statement: forall decimals a,b,c (k digits) with b - a = m c:  nsteps = Some m.  FALSE: *)
-Theorem nsteps_refuted : exists (k : nat) (a b c m : Z),
-  (0 < c)%Z /\ (b - a = m * c)%Z /\ nsteps (dec k a) (dec k b) (dec k c) <> Some m.
-Proof.
-  exists 1, 0%Z, 3%Z, 1%Z, 3%Z. split; [reflexivity|]. split; [reflexivity|].
-  destruct nsteps_witness as (H & _). unfold w_nsteps in H. rewrite H. discriminate.
-Qed.
-Print Assumptions nsteps_refuted.
+(* ---- nsteps = int(round((T - t0)/dt)) in binary64 (Coq primitive floats, bit exact) ----
+   What is proved: BOUNDED and exhaustive over the grid below (96 000 float triples): times written with
+   k = 0..3 decimals, t0 = a 10^-k, dt = c 10^-k, T = (a + m c) 10^-k with 0 <= a < 20, 1 <= c <= 30,
+   1 <= m <= 40, each the correctly rounded binary64 value of its decimal literal  =>  exactly m steps.
+   Not proved: the statement for ALL float triples whose real quotient is within 1/2 of an integer
+   (needs the IEEE-754 specification axioms of Coq's Floats library); beyond the grid the model is
+   compared bit-exactly with StateEvolution.execute on every run (1 000 / 10 000 triples). *)
+Theorem nsteps_ok_bounded : forall k a c m,
+  In k [0; 1; 2; 3] -> In a (zrange 0 20) -> In c (zrange 1 30) -> In m (zrange 1 40) ->
+  nsteps (dec k a) (dec k (a + m * c)) (dec k c) = Some m.
+Proof. exact dec_grid_thm. Qed.
+Print Assumptions nsteps_ok_bounded.
 
-(* proved part (bounded, exhaustive): integer times 0 <= a <= b <= 40, 1 <= c <= 40 *)
-Theorem nsteps_ok_partial_int_grid : forall a b c,
-  In a (zrange 0 41) -> In b (zrange 0 41) -> In c (zrange 1 40) -> (a <= b)%Z ->
-  nsteps (fz a) (fz b) (fz c) = Some ((b - a) / c)%Z.
-Proof. exact int_grid_thm. Qed.
-Print Assumptions nsteps_ok_partial_int_grid.
-
-(* the proposed repair (round to nearest) on decimal grids (bounded, exhaustive):
-   k in {1,2} digits, 0 <= a < 20, 1 <= c <= 30, 1 <= m <= 40 *)
-Theorem nsteps_fixed_dec_grid : forall k a c m,
-  In k [1; 2] -> In a (zrange 0 20) -> In c (zrange 1 30) -> In m (zrange 1 40) ->
-  nsteps_fixed (dec k a) (dec k (a + m * c)) (dec k c) = Some m.
-Proof. exact dec_grid_fixed_thm. Qed.
-Print Assumptions nsteps_fixed_dec_grid.
+Example nsteps_nonvacuous : nsteps (dec 1 0) (dec 1 3) (dec 1 1) = Some 3%Z.   (* T = 0.3, dt = 0.1 *)
+Proof. exact nsteps_example. Qed.
 
 (* ---- exponential solver: k steps = P^k psi ---- *)
 Theorem exp_solver_steps : forall n c P psi k, wfm (2 ^ n) (2 ^ n) P -> wfm (2 ^ n) c psi ->
@@ -105,74 +106,27 @@ Section Poly.
   Context {R} (K : rk_ring R).
   Notation "a + b" := (radd K a b). Notation "a * b" := (rmul K a b).
   Notation "a - b" := (radd K a (ropp K b)).
-  (* psi - i (dt H + dt^2 H^2/2 + dt^3 H^3/6 + dt^4 H^4/24) psi *)
-  Definition rk4_poly (H dt psi : R) : R :=
-    psi - ri K * (dt * H + dt * dt * H * H * u2 K + dt * dt * dt * H * H * H * (u2 K * u3 K)
-                  + dt * dt * dt * dt * H * H * H * H * (u2 K * u2 K * u2 K * u3 K)) * psi.
-  (* ... + dt^5 H^5/120 + dt^6 H^6/2080 *)
-  Definition rk45_poly (H dt psi : R) : R :=
-    psi - ri K * (dt * H + dt * dt * H * H * u2 K + dt * dt * dt * H * H * H * (u2 K * u3 K)
-                  + dt * dt * dt * dt * H * H * H * H * (u2 K * u2 K * u2 K * u3 K)
-                  + dt * dt * dt * dt * dt * H * H * H * H * H * (u2 K * u2 K * u2 K * u3 K * u5 K)
-                  + dt * dt * dt * dt * dt * dt * H * H * H * H * H * H * rinv K 5 0 1 0 1 0) * psi.
   Definition taylor5p (H dt psi : R) : R :=
     taylor5 K H dt psi + rpow K (ropp K (ri K) * dt * H) 6 * rinv K 5 0 1 0 1 0 * psi.
 End Poly.
 
-(* what RungeKutta4.__call__ computes: NOT the Taylor polynomial of exp(-i dt H) *)
-Theorem rk4_step_polynomial : forall R (K : rk_ring R), rk_ring_ok K ->
-  forall H dt psi, rk4_step K H dt psi = rk4_poly K H dt psi.
-Proof.
-  intros R [o0 o1 oa om oo oi w2 w3 w5 w11 w13 w19] (Rth & i2 & i3 & _) H dt psi.
-  exact (rk4_step_formula R o0 o1 oa om oo oi w2 w3 w5 w11 w13 w19 Rth i2 i3 H dt psi).
-Qed.
-Print Assumptions rk4_step_polynomial.
-
-(* full statement  rk4_taylor : forall K ok H dt psi, rk4_step K H dt psi = taylor4 K H dt psi  is FALSE *)
-Theorem rk4_taylor_refuted : exists R (K : rk_ring R), rk_ring_ok K /\
-  rmul K (ri K) (ri K) = ropp K (r1 K) /\
-  exists H dt psi, rk4_step K H dt psi <> taylor4 K H dt psi.
-Proof.
-  exists GC, KQ. split; [|split; [exact KQ_ii|]].
-  - exact (conj gc_ring (conj KQ_inv2 (conj KQ_inv3 (conj KQ_inv5 (conj KQ_inv11 (conj KQ_inv13 KQ_inv19)))))).
-  - exists (r1 KQ), (r1 KQ), (r1 KQ). apply rk4_witness.
-Qed.
-Print Assumptions rk4_taylor_refuted.
-
-(* the repaired step (stages evaluate -i H s) is the Taylor polynomial up to order 4 *)
-Theorem rk4_fixed_taylor_ok : forall R (K : rk_ring R), rk_ring_ok K ->
-  forall H dt psi, rk4_step_fixed K H dt psi = taylor4 K H dt psi.
+(* one RK4 step for a constant Hamiltonian = sum_{j<=4} (-i dt H)^j / j!  psi *)
+Theorem rk4_taylor_ok : forall R (K : rk_ring R), rk_ring_ok K ->
+  forall H dt psi, rk4_step K H dt psi = taylor4 K H dt psi.
 Proof.
   intros R [o0 o1 oa om oo oi w2 w3 w5 w11 w13 w19] (Rth & i2 & i3 & _) H dt psi.
   exact (rk4_fixed_taylor R o0 o1 oa om oo oi w2 w3 w5 w11 w13 w19 Rth i2 i3 H dt psi).
 Qed.
-Print Assumptions rk4_fixed_taylor_ok.
+Print Assumptions rk4_taylor_ok.
 
-Theorem rk45_step_polynomial : forall R (K : rk_ring R), rk_ring_ok K ->
-  forall H dt psi, rk45_step K H dt psi = rk45_poly K H dt psi.
-Proof.
-  intros R [o0 o1 oa om oo oi w2 w3 w5 w11 w13 w19] (Rth & i2 & i3 & i5 & i11 & i13 & i19) H dt psi.
-  exact (rk45_step_formula R o0 o1 oa om oo oi w2 w3 w5 w11 w13 w19 Rth i2 i3 i5 i11 i13 i19 H dt psi).
-Qed.
-Print Assumptions rk45_step_polynomial.
-
-Theorem rk45_taylor_refuted : exists R (K : rk_ring R), rk_ring_ok K /\
-  exists H dt psi, rk45_step K H dt psi <> taylor5 K H dt psi.
-Proof.
-  exists GC, KQ. split.
-  - exact (conj gc_ring (conj KQ_inv2 (conj KQ_inv3 (conj KQ_inv5 (conj KQ_inv11 (conj KQ_inv13 KQ_inv19)))))).
-  - exists (r1 KQ), (r1 KQ), (r1 KQ). apply rk45_witness.
-Qed.
-Print Assumptions rk45_taylor_refuted.
-
-(* the repaired RK45 step: Taylor polynomial up to order 5, plus (1/2080) (-i dt H)^6 *)
-Theorem rk45_fixed_taylor_ok : forall R (K : rk_ring R), rk_ring_ok K ->
-  forall H dt psi, rk45_step_fixed K H dt psi = taylor5p K H dt psi.
+(* one RK45 step (Fehlberg, 5th-order weights) = sum_{j<=5} (-i dt H)^j / j! psi + (1/2080) (-i dt H)^6 psi *)
+Theorem rk45_taylor_ok : forall R (K : rk_ring R), rk_ring_ok K ->
+  forall H dt psi, rk45_step K H dt psi = taylor5p K H dt psi.
 Proof.
   intros R [o0 o1 oa om oo oi w2 w3 w5 w11 w13 w19] (Rth & i2 & i3 & i5 & i11 & i13 & i19) H dt psi.
   exact (rk45_fixed_taylor R o0 o1 oa om oo oi w2 w3 w5 w11 w13 w19 Rth i2 i3 i5 i11 i13 i19 H dt psi).
 Qed.
-Print Assumptions rk45_fixed_taylor_ok.
+Print Assumptions rk45_taylor_ok.
 
 Example rk_ring_ok_nonvacuous : rk_ring_ok KQ.
 Proof. exact (conj gc_ring (conj KQ_inv2 (conj KQ_inv3 (conj KQ_inv5 (conj KQ_inv11 (conj KQ_inv13 KQ_inv19)))))). Qed.
